@@ -108,6 +108,8 @@ type Discharger struct {
 	MaxTime float64
 	Disagreements []string
 	InstTimeout int
+	DeferCand bool // an undecided obligation with only a candidate counterexample goes through the retry pass before it counts as failed
+	retrying  bool
 }
 
 func (d *Discharger) Run(obls []*Obligation) {
@@ -139,16 +141,22 @@ func (d *Discharger) Run(obls []*Obligation) {
 
 // Retry re-runs undecided obligations with little parallelism and a longer limit: an "unknown" that is only
 // a time-out under machine load must not become an alarm. A retried obligation that discharges is noted as such.
-func (d *Discharger) Retry(obls []*Obligation, factor int) int {
+func (d *Discharger) Retry(obls []*Obligation, factor int, skip func(*Obligation) bool) int {
 	var todo []*Obligation
 	for _, o := range obls {
 		if o.Status == "unknown" && o.Kind != "cover" && !strings.HasPrefix(o.Note, "VC size") {
+			if o.Cand && skip != nil && skip(o) {
+				o.Status = "failed"
+				continue
+			}
 			todo = append(todo, o)
 		}
 	}
 	if len(todo) == 0 {
 		return 0
 	}
+	d.retrying = true
+	defer func() { d.retrying = false }()
 	saved := d.Timeout
 	d.Timeout = saved * factor
 	d.InstTimeout = 5 * factor
@@ -160,7 +168,7 @@ func (d *Discharger) Retry(obls []*Obligation, factor int) int {
 		go func(o *Obligation) {
 			defer wg.Done()
 			defer func() { <-sem }()
-			o.Status, o.Model = "", ""
+			o.Status, o.Model, o.Cand = "", "", false
 			d.one(o)
 			if o.Status == "discharged" {
 				o.Backend += "+retry"
@@ -282,7 +290,7 @@ func (d *Discharger) one(o *Obligation) {
 		return
 	}
 	tmo := d.Timeout
-	if cand != nil && !d.All && tmo > 4 {
+	if cand != nil && !d.All && tmo > 4 && !d.retrying {
 		tmo = 4 // a candidate counterexample exists already; do not wait long for the full query
 	}
 	r, all := race(file, tmo, d.All)
@@ -335,6 +343,11 @@ func (d *Discharger) one(o *Obligation) {
 	default:
 		if cand != nil {
 			o.Status = "failed"
+			if d.DeferCand && !d.retrying {
+				// a time-out of the full query under machine load must not become an alarm: the retry pass decides
+				o.Status = "unknown"
+				o.Cand = true
+			}
 			o.Backend = cand.Backend + "+inst"
 			o.Model = "; candidate counterexample from the finitely instantiated query (the full query was undecided)\n" + cand.Output
 		} else {
